@@ -1,7 +1,7 @@
 #!/bin/bash
 # usage: tools/round5.sh verify <ID> <A|B> "<demo cmd>"      (parallel-safe: works in /tmp/seed5/<ID>)
 #        tools/round5.sh keep   <ID> <A|B> <AS> "<demo cmd>" "<needs>"   (collect + seedrun; serial, uses /repo)
-export SEED_BASE=/tmp/seed5
+export SEED_BASE=${SEED_BASE:-/tmp/seed6}
 cmd=$1; shift
 case $cmd in
 verify) /verif/tools/verify_seed.sh "$1" "$2" "$3" ;;
